@@ -204,6 +204,7 @@ class TypeEngine:
         self.ctx_node_types: Dict[Tuple[str, tuple, int], FrozenSet] = {}
         self.call_targets: Dict[Tuple[str, int], Set[str]] = {}
         self.in_sites: Dict[Tuple[str, int], Set[Tuple]] = {}
+        self.op_targets: Dict[Tuple[str, int], Set[str]] = {}  # operator / protocol dispatch
         self.anomalies: List[Tuple[str, int, str]] = []  # (fn qual, lineno, text)
         self.fn_by_qual: Dict[str, FunctionInfo] = {f.qual: f for f in repo.functions()}
         self.class_by_name: Dict[str, ClassInfo] = {}
@@ -366,6 +367,36 @@ class TypeEngine:
             self.changed = True
 
     # queries used by rules -------------------------------------------------
+    def call_graph(self) -> Dict[str, Set[str]]:
+        g: Dict[str, Set[str]] = {}
+        for src in (self.call_targets, self.op_targets):
+            for (q, _), tg in src.items():
+                g.setdefault(q, set()).update(tg)
+        return g
+
+    def transitive_callers_of(self, quals: Set[str]) -> Set[str]:
+        g = self.call_graph()
+        rev: Dict[str, Set[str]] = {}
+        for a, bs in g.items():
+            for b in bs:
+                rev.setdefault(b, set()).add(a)
+        seen = set(quals)
+        todo = list(quals)
+        while todo:
+            x = todo.pop()
+            for y in rev.get(x, ()):
+                if y not in seen:
+                    seen.add(y)
+                    todo.append(y)
+        return seen
+
+    def targets_in(self, fi: FunctionInfo, expr: ast.AST) -> Set[str]:
+        out: Set[str] = set()
+        for n in ast.walk(expr):
+            out |= self.call_targets.get((fi.qual, id(n)), set())
+            out |= self.op_targets.get((fi.qual, id(n)), set())
+        return out
+
     def types_at(self, fi: FunctionInfo, node: ast.AST) -> FrozenSet:
         return self.node_types.get((fi.qual, id(node)), BOT)
 
@@ -410,6 +441,9 @@ class Frame:
         old = self.eng.ctx_node_types.get(k2, BOT)
         if not v <= old:
             self.eng.ctx_node_types[k2] = old | v
+
+    def optarget(self, node, m):
+        self.eng.op_targets.setdefault((self.fi.qual, id(node)), set()).add(m.qual)
 
     def anomaly(self, node, text):
         if self.eng.final and not self.eng.suppress:
@@ -658,6 +692,7 @@ class Frame:
                 elif self.eng.is_class_tag(tag):
                     m = self.eng.class_by_name[tag].lookup("__setitem__")
                     if m is not None:
+                        self.optarget(t, m)
                         self.eng.call_split(m, [S(tag), self.ev(t.slice, env), v])
                     new.add(tag)
                 else:
@@ -688,6 +723,7 @@ class Frame:
                 else:
                     g = c.lookup("__getitem__")
                     if g is not None:
+                        self.optarget(node, g)
                         out |= self.eng.call(g, (S(t), NUM))
                     else:
                         self.anomaly(node, "iteration over non-iterable %s" % t)
@@ -953,6 +989,7 @@ class Frame:
                         self.anomaly(e, "subscript on %s without __getitem__" % t)
                         out |= unknown("subscript " + t)
                     else:
+                        self.optarget(e, m)
                         out |= eng.call_split(m, [S(t), idx if idx is not None else NUM])
                 elif is_unknown(t) or t == "Ext":
                     out |= S(t)
@@ -978,6 +1015,7 @@ class Frame:
                         self.anomaly(e, "unary op on %s" % t)
                         out |= unknown("unary")
                     else:
+                        self.optarget(e, m)
                         out |= eng.call(m, (S(t),))
                 elif t in ("num", "bool"):
                     out |= NUM
@@ -1183,8 +1221,10 @@ class Frame:
         for a in l:
             for b in r:
                 if eng.is_class_tag(a) and eng.class_by_name[a].lookup(d) is not None:
+                    self.optarget(node, eng.class_by_name[a].lookup(d))
                     out |= eng.call(eng.class_by_name[a].lookup(d), (S(a), S(b)))
                 elif eng.is_class_tag(b) and eng.class_by_name[b].lookup(rd) is not None:
+                    self.optarget(node, eng.class_by_name[b].lookup(rd))
                     out |= eng.call(eng.class_by_name[b].lookup(rd), (S(b), S(a)))
                 elif a in ("num", "bool") and b in ("num", "bool"):
                     out |= NUM
@@ -1224,6 +1264,7 @@ class Frame:
                         if eng.is_class_tag(c):
                             m = eng.class_by_name[c].lookup("__contains__")
                             if m is not None:
+                                self.optarget(e, m)
                                 eng.call(m, (S(c), S(x)))
                             else:
                                 self.anomaly(e, "`in` on %s without __contains__" % c)
@@ -1236,6 +1277,7 @@ class Frame:
                         if m is None and name == "__ne__":
                             m = eng.class_by_name[a].lookup("__eq__")
                         if m is not None:
+                            self.optarget(e, m)
                             for b in right:
                                 eng.call(m, (S(a), S(b)))
                     elif isinstance(a, tuple) and a[0] == "bound" and isinstance(op, (ast.Eq, ast.NotEq)):
@@ -1440,6 +1482,8 @@ class Frame:
                 for t in args[0]:
                     if self.eng.is_class_tag(t):
                         m = self.eng.class_by_name[t].lookup("__abs__")
+                        if m is not None:
+                            self.optarget(e, m)
                         out |= self.eng.call(m, (S(t),)) if m is not None else unknown("abs")
                     else:
                         out |= NUM
@@ -1449,6 +1493,7 @@ class Frame:
                     if self.eng.is_class_tag(t):
                         m = self.eng.class_by_name[t].lookup("__hash__")
                         if m is not None:
+                            self.optarget(e, m)
                             self.eng.call(m, (S(t),))
             if name == "len" and args:
                 for t in args[0]:
